@@ -149,3 +149,21 @@ pub proof fn lemma_node_count_elems(t: Unifiable)
         _ => {},
     }
 }
+
+// TRUSTED(T2): std's `impl PartialEq for Rc<T>` compares the pointees; vstd has no spec for it.
+pub axiom fn axiom_rc_eq()
+    ensures
+        <Rc<Unifiable> as vstd::std_specs::cmp::PartialEqSpec>::obeys_eq_spec(),
+        forall|a: Rc<Unifiable>, b: Rc<Unifiable>|
+            #[trigger] <Rc<Unifiable> as vstd::std_specs::cmp::PartialEqSpec>::eq_spec(&a, &b) == ueq(*a, *b);
+
+// shape of a well-formed list node
+pub proof fn lemma_list_shape(t: Unifiable)
+    requires wf_list(t),
+    ensures
+        t is SLinkedList,
+        (*t->SLinkedList_next) is SLinkedList || (*t->SLinkedList_next) == Unifiable::Nil,
+        (*t->SLinkedList_term) != Unifiable::Nil ==> wf_list(*t->SLinkedList_next),
+{
+    reveal_with_fuel(wf_list, 2);
+}
